@@ -1052,14 +1052,18 @@ int vf_main(int argc, char** argv, const char* property,
       }
     for (size_t k : again) {
       VfCase& c   = cases[sel[k]];
-      double left = opt.deadline - (now() - t0);
-      if (left < 2 * all[k].wall + 3) { // not enough to get further than before
-        w2 -= c.weight;
-        continue;
-      }
-      double budget = left * c.weight / w2;
+      double left   = opt.deadline - (now() - t0);
+      double budget = left > 0 ? left * c.weight / w2 : 0;
       w2 -= c.weight;
+      if (budget < 2 * all[k].wall + 2) // not enough to get further than before
+        continue;
+      CaseStats old = all[k];
       run_one(k, budget, "re-run with the unused part of the deadline");
+      // keep whichever run got further
+      if (!all[k].nviol && !all[k].engine_errors && !all[k].exhaustive &&
+          all[k].bound_completed <= old.bound_completed &&
+          all[k].executions < old.executions)
+        all[k] = old;
     }
   }
   double wall = now() - t0;
